@@ -35,3 +35,9 @@ ASSUMPTIONS = [
 
 # dimensions added in seeded rounds 6 and 7
 PROBES = list(PROBES) + ["plan-made-before-the-previous-one-was-consumed", "read_block-between-making-and-iterating-a-plan", "integer-arguments-as-numpy-scalars"]
+
+# dimensions added in seeded round 9
+PROBES = list(PROBES) + ["orphan:plan-outlives-its-reader", "orphan:copy-of-the-reader-dropped", "multi-gigabyte-sparse-stream"]
+RULE = RULE + (" Round 9: 12% of plans are made on a reader that nothing but the plan refers to (or after a shallow copy of the reader was dropped); 2% of runs place short plans "
+               "on multi-gigabyte SPARSE file sets (byte offsets beyond 2^31 / 2^32; functional model); header keys in another order / optional keys in a third of the sets; "
+               "observations reached through symbolic links; library tuning constants lowered in a quarter of the runs.")
